@@ -343,3 +343,51 @@ func addCollidingDefs(t *rapid.T, c *core.Ctx, f *model.File, family string) {
 	}
 	c.Count(fmt.Sprintf("shape.colliding_defs.%s.%d", family, n))
 }
+
+
+// countShapes tallies which schema features and options a run case carries
+// (evidence: the distribution the generator actually produced).
+func countShapes(c *core.Ctx, f *model.File, cfg gen.Config) {
+	seen := map[string]bool{}
+	visit := func(n *model.Node) {
+		seen["kind."+n.Kind.String()] = true
+		if n.Nullable {
+			seen["nullable."+n.Kind.String()] = true
+		}
+		if n.Format != "" {
+			seen["format."+n.Format] = true
+		}
+		if n.Default != nil {
+			seen["default."+n.Kind.String()] = true
+		}
+		if n.Additional != nil {
+			switch {
+			case n.Additional.False:
+				seen["additional.false"] = true
+			case n.Additional.Schema != nil && n.Additional.Schema.Kind == model.KAny:
+				seen["additional.untyped"] = true
+			case n.Additional.Schema != nil:
+				seen["additional."+n.Additional.Schema.Kind.String()] = true
+			}
+		}
+		if n.Kind == model.KArray && n.Items != nil && n.Items.Kind == model.KArray {
+			seen["array.nested"] = true
+		}
+		if (n.Kind == model.KAllOf || n.Kind == model.KAnyOf) && len(n.Branches) > 0 {
+			seen[fmt.Sprintf("%s.%d_branches", n.Kind, len(n.Branches))] = true
+		}
+	}
+	model.Walk(f.Root, visit)
+	for _, d := range f.Defs {
+		model.Walk(d.Node, visit)
+		seen["definition."+d.Node.Kind.String()] = true
+	}
+	for k := range seen {
+		c.Count("schema." + k)
+	}
+	for _, a := range cfg.Args() {
+		if strings.HasPrefix(a, "--") {
+			c.Count("option." + a)
+		}
+	}
+}
